@@ -3,7 +3,8 @@
 (* keeps the generated main file well-formed by construction (balanced, un-nested conditionals; only #include /   *)
 (* #error inside a conditional).  Which selects the chunk alphabet and the fixed include files:                   *)
 (*  "cond"  DESIGN 4.8: define, moleculetype, table line, includes (root file, sub-directory file that defines M  *)
-(*          and includes ../a.itp, a file with its own conditional #error after a moleculetype) and all           *)
+(*          and includes ../a.itp and its own sibling a.itp - a name that also exists beside the main file -,     *)
+(*          a file with its own conditional #error after a moleculetype) and all                                  *)
 (*          #ifdef/#ifndef M [#else] forms over the bodies {empty, include a, include sub/b, #error, include c}    *)
 (*  "sec"   section order / overriding: defaults, atom types, bond types, nonbond_params, valued defines, tables   *)
 (*          coming from (nested) includes, conditionals on a valued macro and on a never-defined macro            *)
@@ -29,12 +30,15 @@ Hdr == <<L("defaults", "", 1, <<>>), L("atype", "P", 1, <<>>)>>
 
 (* ---- "cond" *)
 FA == <<L("atype", "TA", 1, <<>>), L("mol", "C", 2, <<>>)>>
-FB == <<L("def", "M", 0, <<>>), inc(<<"..", "a.itp">>)>>
+\* the relative name a.itp exists beside the main file (FA) and in sub/ (FSA) with different content: sub/b.itp names both
+FSA == <<L("atype", "TS", 1, <<>>)>>
+FB == <<L("def", "M", 0, <<>>), inc(<<"..", "a.itp">>), inc(<<"a.itp">>)>>
 FC == <<L("mol", "D", 1, <<>>), L("ifdef", "M", 0, <<>>), L("err", "", 0, <<>>), L("else", "", 0, <<>>), inc(<<"a.itp">>), L("endif", "", 0, <<>>)>>
 CondBodies == << <<>>, <<inc(<<"a.itp">>)>>, <<inc(<<"sub", "b.itp">>)>>, <<L("err", "", 0, <<>>)>>, <<inc(<<"c.itp">>)>> >>
 CondChunks == << <<L("def", "M", 0, <<>>)>>, <<L("mol", "A", 1, <<>>)>>, <<L("atype", "T1", 1, <<>>)>>,
                  <<inc(<<"a.itp">>)>>, <<inc(<<"sub", "b.itp">>)>>, <<inc(<<"c.itp">>)>> >> \o CondForms("M", CondBodies)
-CondFiles == <<[path |-> <<"a.itp">>, lines |-> FA], [path |-> <<"sub", "b.itp">>, lines |-> FB], [path |-> <<"c.itp">>, lines |-> FC]>>
+CondFiles == <<[path |-> <<"a.itp">>, lines |-> FA], [path |-> <<"sub", "b.itp">>, lines |-> FB], [path |-> <<"c.itp">>, lines |-> FC],
+               [path |-> <<"sub", "a.itp">>, lines |-> FSA]>>
 
 (* ---- "sec" *)
 FT == <<L("atype", "T", 2, <<>>), L("btype", "PQ", 2, <<>>), L("nbp", "PQ", 2, <<>>), L("defaults", "", 2, <<>>), L("def", "K", 2, <<>>)>>
@@ -50,8 +54,10 @@ SecFiles == <<[path |-> <<"t.itp">>, lines |-> FT], [path |-> <<"sub", "u.itp">>
 (* ---- "mols" *)
 Names3 == <<"A", "B", "C">>
 MolsChunks == [i \in 1..12 |-> <<L("mols", Names3[((i - 1) \div 4) + 1], (i - 1) % 4, <<>>)>>]
-MolsPrefix == <<L("mol", "A", 1, <<>>), L("mol", "B", 2, <<>>), inc(<<"a.itp">>)>>
-MolsFiles == <<[path |-> <<"a.itp">>, lines |-> FA]>>
+\* C (a.itp) is read twice, through main and through sub/r.itp; B is declared by sub/r.itp and again by main
+FR == <<inc(<<"..", "a.itp">>), L("mol", "B", 2, <<>>)>>
+MolsPrefix == <<L("mol", "A", 1, <<>>), L("mol", "B", 2, <<>>), inc(<<"a.itp">>), inc(<<"sub", "r.itp">>)>>
+MolsFiles == <<[path |-> <<"a.itp">>, lines |-> FA], [path |-> <<"sub", "r.itp">>, lines |-> FR]>>
 
 (* ---- "split" *)
 FM == <<L("mols", "C", 2, <<>>)>>
